@@ -224,7 +224,9 @@ def _punct_env_map(m):
 def schema_yaml(sid, s):
     y = ["schema:", "  schema_id: %s" % sid, "  name: %s" % sid, "  version: '1'", "engine:", "  processors:"]
     y += ["    - %s" % p for p in s["procs"]]
-    if s.get("punct"):
+    if s.get("segmentors"):
+        y += _rec_engine_yaml(s)
+    elif s.get("punct"):
         y += ["  segmentors:", "    - abc_segmentor", "    - punct_segmentor", "    - fallback_segmentor", "  translators:",
               "    - punct_translator", "    - vt_translator"]
     else:
@@ -274,6 +276,8 @@ def schema_yaml(sid, s):
         for b in s["kb"]:
             kind = next(k for k in KB_KINDS if k in b)
             y.append("    - {when: %s, accept: %s, %s: %s}" % (b["when"], _yq(b["accept"]), kind, _yq(b[kind])))
+    if s.get("segmentors"):
+        y += _rec_sections_yaml(s)
     return "\n".join(y) + "\n"
 
 
@@ -321,7 +325,7 @@ def _ascii_env(s):
 
 def env_line(sid, s):
     procs = ",".join(s["procs"])
-    return _env_line(sid, s, procs) + _punct_env(s) + _kb_env(s) + _ascii_env(s)
+    return _env_line(sid, s, procs) + _punct_env(s) + _kb_env(s) + _ascii_env(s) + _rec_env(s)
 
 
 def _punct_env(s):
@@ -596,6 +600,9 @@ def gen_history(rng, sid, s, n, profile="mixed"):
     edit_keys = [XK["BackSpace"], XK["Delete"], XK["KP_Left"], XK["KP_Right"], XK["Right"], XK["Home"], XK["End"], XK["Escape"]]
     punct = s.get("punct")
     for _ in range(n):
+        if s.get("segmentors") and profile != "edit" and rng.random() < 0.30:
+            ops += gen_rec_ops(rng, s)
+            continue
         if s.get("ascii") and profile != "edit" and rng.random() < 0.20:
             ops += gen_ac_ops(rng, s)
             continue
@@ -1447,14 +1454,256 @@ def standard_histories(c, n_hist, n_ops, profile="mixed", schemas=None):
     prev_match_punct_grid(rows_for, hs)
     kb_grid(rows_for, hs, c.rng if c.tier == "quick" else None)
     ac_grid(rows_for, hs, c.rng if c.tier == "quick" else None)
+    rec_grid(rows_for, hs, c.rng if c.tier == "quick" else None)
     schemas = schemas or list(SCHEMAS)
     for t in range(max(1, n_hist // 8)):
         for sid in schemas:
             tid = "g%d_%s" % (t, sid)
-            rows_for[tid] = gen_table(c.rng, SCHEMAS[sid]["alphabet"])
+            rows_for[tid] = gen_table(c.rng, SCHEMAS[sid]["alphabet"]) + rec_rows(c.rng, SCHEMAS[sid])
     tids = [t for t in rows_for if t.startswith("g")]
     for i in range(n_hist):
         tid = tids[i % len(tids)]
         sid = tid.split("_", 1)[1]
         hs.append((sid, gen_history(c.rng, sid, SCHEMAS[sid], n_ops, profile), tid))
     return hs, rows_for
+
+
+# ------------------------------------------------------------------ recognizer + matcher + affix_segmentor + ascii_segmentor
+# The family is inside the session model (Session/Recog.lean, RecogCompose.lean; driver: composeR).  Regular expressions are
+# not modelled: a pattern is written here as a list of items (byte set, quantifier) with optional anchors — the class of
+# lean/RimeModel/Session/RecogPattern.lean — from which BOTH the regex string librime compiles and the description the
+# driver parses are generated.  A set is a list of (lo, hi) character pairs; quantifiers 1 ? * +.
+REC_QUANT = {"1": "o", "?": "q", "*": "s", "+": "p"}
+_RE_SPECIAL = ".[{}()\\*+?|^$/"
+
+
+def _pset(spec):
+    """'a-c0-9;' -> [('a','c'),('0','9'),(';',';')]"""
+    out, i = [], 0
+    while i < len(spec):
+        if i + 2 < len(spec) and spec[i + 1] == "-":
+            out.append((spec[i], spec[i + 2]))
+            i += 3
+        else:
+            out.append((spec[i], spec[i]))
+            i += 1
+    return out
+
+
+def rec_regex(p):
+    """the regular expression of a pattern of the class, as written in the schema"""
+    r = "^" if p.get("start", True) else ""
+    for spec, q in p["items"]:
+        ps = _pset(spec)
+        if len(ps) == 1 and ps[0][0] == ps[0][1]:
+            ch = ps[0][0]
+            r += ("\\" + ch) if ch in _RE_SPECIAL and ch != "/" else ch
+        else:
+            r += "[" + "".join(a if a == b else a + "-" + b for a, b in ps) + "]"
+        r += "" if q == "1" else q
+    return r + ("$" if p.get("end", True) else "")
+
+
+def _rec_pattern_env(p):
+    items = ",".join(REC_QUANT[q] + "".join("%02x%02x" % (ord(a), ord(b)) for a, b in _pset(spec)) for spec, q in p["items"])
+    return "%s/%s%s/%s" % (hx(p["name"]), "S" if p.get("start", True) else "U", "E" if p.get("end", True) else "N", items)
+
+
+SEGMENTOR_ENV = {"ascii_segmentor": "ascii", "matcher": "matcher", "abc_segmentor": "abc", "punct_segmentor": "punct",
+                 "fallback_segmentor": "fallback"}
+
+
+def _rec_env(s):
+    """segmentors=<ascii|matcher|abc|punct|fallback|affix.<i>>,…  affix=<tag>/<prefix>/<suffix>/<tips>/<closing tips>/<extra,…>;…
+    rec=<name>/<S|U><E|N>/<q><lo hi…>,…;…  recUseSpace=0|1  vtTags=<tag>,…      (names and texts in hex, - = empty)"""
+    if not s.get("segmentors"):
+        return ""
+    names = list(s.get("affix", {}))
+    segs = [SEGMENTOR_ENV[n] if n in SEGMENTOR_ENV else "affix.%d" % names.index(n.split("@", 1)[1]) for n in s["segmentors"]]
+    aff = ["/".join([hx(a.get("tag", "abc")), hx(a.get("prefix", "")), hx(a.get("suffix", "")), hx(a.get("tips", "")),
+                     hx(a.get("closing_tips", "")), ",".join(hx(t) for t in sorted(a.get("extra_tags", []))) or "-"])
+           for a in s.get("affix", {}).values()]
+    R = s.get("rec", {})
+    return " segmentors=%s affix=%s rec=%s recUseSpace=%d vtTags=%s" % (
+        ",".join(segs), ";".join(aff) or "-", ";".join(_rec_pattern_env(p) for p in R.get("patterns", [])) or "-",
+        R.get("use_space", 0), ",".join(hx(t) for _, t in s.get("vt", [(None, "abc")])))
+
+
+def _rec_engine_yaml(s):
+    y = ["  segmentors:"] + ["    - %s" % n for n in s["segmentors"]] + ["  translators:"]
+    if s.get("punct"):
+        y.append("    - punct_translator")
+    return y + ["    - vt_translator" + ("@" + n if n else "") for n, _ in s.get("vt", [(None, "abc")])]
+
+
+def _rec_sections_yaml(s):
+    y = []
+    R = s.get("rec")
+    if R:
+        y += ["recognizer:"] + (["  use_space: true"] if R.get("use_space") else []) + ["  patterns:"]
+        y += ["    %s: %s" % (p["name"], _yq(rec_regex(p))) for p in R["patterns"]]
+    sections = {}
+    for n, a in s.get("affix", {}).items():
+        sec = sections.setdefault(n, [])
+        for k in ("tag", "prefix", "suffix", "tips", "closing_tips"):
+            if k in a:
+                sec.append("  %s: %s" % (k, _yq(a[k])))
+        if a.get("extra_tags"):
+            sec.append("  extra_tags: [%s]" % ", ".join(a["extra_tags"]))
+    for n, t in s.get("vt", []):
+        if n and not any(l.startswith("  tag:") for l in sections.setdefault(n, [])):
+            sections[n].append("  tag: %s" % t)
+    for n, sec in sections.items():
+        y += ["%s:" % n] + sec
+    return y
+
+
+REC_SCHEMAS = {
+    # stock order of the segmentors (ascii, matcher, abc, affix, fallback); the recognizer BEFORE the speller.  Patterns (std::map
+    # order num < rev < up): `rev` is luna_pinyin's reverse lookup pattern — not anchored at the start — whose tag the affix
+    # segmentor splits into prefix "`" / code / suffix "'" (the suffix is also the speller's delimiter) with tips, closing tips
+    # and an extra tag; `up` a prefix letter outside the alphabet with its own translator; `num` digits with `+` and an optional
+    # `;`: only when the whole active input (from the confirmed position) is digits — digits are the selector's keys otherwise
+    "vs_rec": dict(procs=["recognizer", "speller", "selector", "navigator", "express_editor"], alphabet="abc", delimiters="'",
+                   pageSize=3, uniq=1,
+                   segmentors=["ascii_segmentor", "matcher", "abc_segmentor", "affix_segmentor@rev", "fallback_segmentor"],
+                   vt=[(None, "abc"), ("up", "up"), ("rev", "rev")],
+                   affix={"rev": dict(tag="rev", prefix="`", suffix="'", tips="〔反查〕", closing_tips="〔完〕", extra_tags=["xtra"])},
+                   rec=dict(patterns=[dict(name="rev", start=False, items=[("`", "1"), ("a-c", "*"), ("'", "?")]),
+                                      dict(name="up", items=[("U", "1"), ("a-c", "*")]),
+                                      dict(name="num", items=[("0-9", "+"), (";", "?")])]),
+                   recKeys=["U", "Ua", "Uab", "Ub", "Uabc", "1", "12"],
+                   recWords=["`", "`a", "`ab", "`ab'", "`'", "`abc'", "a`b", "ab`", "ab`c'", "U", "Ua", "Uab", "aUb", "UU", "Ua'", "1", "12;", "a1", "1a",
+                             "`a`b", "`a'b", "''", "`1"]),
+    # the recognizer AFTER the speller (the speller takes the letters first; the recognizer sees only what the speller
+    # declines), fluid editor, punctuation components in the middle of the segmentor list, no ascii segmentor.  An affix
+    # segmentor on the DEFAULT tag `abc` (prefix `d`, suffix `;`, both letters of the alphabet, tips only); `sym` — the stock
+    # `punct` pattern's shape: `/` alone is the punctuator's (a list of alternatives), `/` + letters is the recognizer's and
+    # replaces the punctuation segment; spaces inside it (use_space); `eq` anchored only at the start (`=` + letters + anything)
+    "vs_recf": dict(procs=["speller", "recognizer", "punctuator", "selector", "navigator", "fluid_editor"], alphabet="abcd;", initials="abcd",
+                    delimiters="'", pageSize=2, uniq=0,
+                    segmentors=["matcher", "abc_segmentor", "affix_segmentor@dd", "punct_segmentor", "fallback_segmentor"],
+                    vt=[(None, "abc"), ("sym", "sym")],
+                    affix={"dd": dict(prefix="d", suffix=";", tips="[D]")},
+                    punct=dict(use_space=0, half={",": "，", ".": {"commit": "。"}, "/": ["、", "／", "/"], "=": ["＝", "="]},
+                               full={",": "，", ".": {"commit": "．"}, "/": ["／", "÷"], "=": "＝"}),
+                    rec=dict(use_space=1, patterns=[dict(name="sym", items=[("/", "1"), ("a-d ", "+")]),
+                                                    dict(name="eq", end=False, items=[("=", "1"), ("a-b", "+")])]),
+                    recKeys=["/a", "/ab", "/a b", "/b", "=a", "=ab"],
+                    recWords=["d", "da", "dab", "dab;", "d;", "dd", "dd;", "ad", "ad;", "a;", "d;a", "/", "/a", "/ab", "/a b", "a/b", "//a", "/a/",
+                              "=", "=a", "=ab", "=a,", "=ac", "a=b", "da/b", "d,"]),
+    # the stock processor order (ascii_composer, recognizer, key_binder, speller, punctuator, …) with the ascii segmentor first:
+    # ascii_mode switched by Shift taps, by a binding and through the API while a recognized / affixed composition is open
+    "vs_reca": dict(procs=["ascii_composer", "recognizer", "key_binder", "speller", "punctuator", "selector", "navigator", "express_editor"],
+                    alphabet="abc", delimiters="'", pageSize=3, uniq=1,
+                    segmentors=["ascii_segmentor", "matcher", "abc_segmentor", "affix_segmentor@rev", "punct_segmentor", "fallback_segmentor"],
+                    vt=[(None, "abc"), ("rev", "rev")],
+                    affix={"rev": dict(tag="rev", prefix="`", suffix="'", tips="〔反查〕")},
+                    punct=dict(use_space=0, half={",": "，", ".": {"commit": "。"}, "/": ["、", "／", "/"]}, full={",": "，", ".": {"commit": "．"}, "/": ["／", "÷"]}),
+                    rec=dict(patterns=[dict(name="rev", start=False, items=[("`", "1"), ("a-c", "*"), ("'", "?")]),
+                                       dict(name="up", items=[("A-Z", "1"), ("a-c", "*")])]),
+                    ascii=dict(good_old_caps_lock=1, switch_key={"Shift_L": "inline_ascii", "Shift_R": "commit_text", "Control_L": "commit_code",
+                                                                 "Control_R": "clear", "Caps_Lock": "clear", "Eisu_toggle": "clear"}),
+                    switches=[dict(name="ascii_mode", reset=0)],
+                    kb=[dict(when="always", accept="Control+Shift+2", toggle="ascii_mode"), dict(when="composing", accept="Control+g", send="Escape"),
+                        dict(when="has_menu", accept="period", send="Page_Down"), dict(when="composing", accept="Tab", send="Shift+Right"),
+                        dict(when="always", accept="Control+m", send_sequence="`ab"), dict(when="composing", accept="Control+k", send_sequence="{BackSpace}{BackSpace}")],
+                    recKeys=[],
+                    recWords=["`", "`a", "`ab'", "`'", "a`b", "U", "Ua", "Zab", "aUb", "`a,"]),
+}
+SCHEMAS.update(REC_SCHEMAS)
+
+
+def rec_rows(rng, s):
+    """table rows for the keys the tagged translators of a recognizer schema are asked about (the prefix is part of the segment)"""
+    rows = []
+    for k in s.get("recKeys", []):
+        for _ in range(rng.choice([1, 2, 3, 4])):
+            rows.append((k, rng.choice(TEXTS[:-1]), rng.choice(["", "", "c"]), rng.choice(["", "", k.upper(), k[:1] + "\t" + k[1:]])))
+    return rows
+
+
+def _rec_chars(s):
+    """the characters the patterns and affixes of the schema are made of, beyond the alphabet"""
+    cs = set()
+    for p in s.get("rec", {}).get("patterns", []):
+        for spec, _ in p["items"]:
+            for a, b in _pset(spec):
+                cs.update([a, b])
+    for a in s.get("affix", {}).values():
+        cs.update(a.get("prefix", "") + a.get("suffix", ""))
+    return sorted(cs)
+
+
+def _keys_of(w):
+    return ["key %d 0" % ord(ch) for ch in w]
+
+
+def gen_rec_ops(rng, s):
+    """ops for a schema of the recognizer family: a word around a pattern / affix (typed key by key or set through the API,
+    sometimes with one character changed), then what moves across its boundaries: BackSpace over the suffix / code / prefix,
+    Left / Home / set_caret_pos into the prefix and typing there, selection inside the code segment (whole and partial) and
+    typing on, ascii_mode switched on and off in the middle, commit by every route; set_input with line separators around a
+    pattern text (Boost's `^` / `$` hold at embedded line breaks)"""
+    alpha = s["alphabet"]
+    chars = _rec_chars(s)
+    w = rng.choice(s["recWords"])
+    if rng.random() < 0.3:
+        i = rng.randrange(len(w) + 1)
+        w = w[:i] + rng.choice(chars + list(alpha)) + w[i + (rng.random() < 0.5):]
+    r = rng.random()
+    if r < 0.22:
+        sep = rng.choice(["", "", "\n", "\r\n", "\r", "\f", "\n\n"])
+        pre = rng.choice(["", "", "a", "ab", "U", "`"])
+        out = ["input %s" % hx((pre + sep + w + rng.choice(["", "", sep])).encode())]
+    else:
+        out = _keys_of(w)
+        if rng.random() < 0.15:
+            out.insert(rng.randrange(len(out) + 1), rng.choice(["option ascii_mode 1", "option ascii_mode 0", "key %d 0" % XK["Left"], "select 0"]))
+    follow = [[], ["key %d 0" % XK["BackSpace"]] * rng.choice([1, 1, 2, 3]), ["key %d 0" % XK["Left"]] * rng.choice([1, 2, 3]) + _keys_of(rng.choice(chars + list(alpha))),
+              ["key %d 0" % XK["Home"]] + _keys_of(rng.choice(chars + list(alpha))), ["caret %d" % rng.randrange(5)], ["caret %d" % rng.randrange(3), "key %d 0" % XK["BackSpace"]],
+              ["caret %d" % rng.randrange(3), "key %d 0" % XK["Delete"]], ["select %d" % rng.choice([0, 0, 1, 2])] + _keys_of(rng.choice(chars + list(alpha))),
+              ["select_page %d" % rng.choice([0, 1])], ["key %d 0" % XK["space"]], ["key %d 0" % XK["Return"]], ["commit", "read_commit"],
+              ["option ascii_mode 1"] + _keys_of(rng.choice(chars + list(alpha))) + ["option ascii_mode 0"], ["option ascii_mode 1", "key %d 0" % XK["BackSpace"], "option ascii_mode 0"],
+              ["key %d 0" % XK["Escape"]], ["key %d 0" % XK["Down"], "key %d 0" % XK["space"]], ["key %d %d" % (ord(rng.choice(chars)), rng.choice([SHIFT, LOCK, CONTROL, RELEASE]))],
+              ["key 127 0"], ["key 32 0"], _keys_of(rng.choice(s["recWords"])), ["key %d 0" % XK["Left"], "select 0"], ["highlight 1", "key %d 0" % XK["BackSpace"]],
+              ["page +", "key %d 0" % ord(rng.choice(chars))], ["key 49 0"], ["key %d %d" % (XK["Left"], CONTROL)], ["key %d %d" % (XK["BackSpace"], CONTROL)]]
+    for _ in range(rng.choice([1, 1, 2, 3])):
+        out += rng.choice(follow)
+    return out
+
+
+def rec_grid(rows_for, hs, rng=None):
+    """directed: on each schema of the recognizer family, every word of its list (prefix alone, prefix + code, with the suffix,
+    prefix + suffix without code, the pattern character in the middle of letters, twice, followed by something the pattern does
+    not allow) typed key by key and, separately, set through the API — followed by each boundary move: BackSpace down to nothing,
+    the caret at every position (then a letter / BackSpace), a whole and a partial selection followed by more input, ascii_mode
+    on / off with the composition open, commit through the API / Return / space.  With `rng` (quick tier): a seeded third of it."""
+    for sid, s in SCHEMAS.items():
+        if not s.get("segmentors"):
+            continue
+        tid = "rg_" + sid
+        rows = [("a", "啊", "", ""), ("a", "阿", "c", ""), ("ab", "阿爸", "", ""), ("b", "吧", "", ""), ("b", "把", "", ""), ("abc", "ABC", "", ""), ("c", "从", "", ""),
+                ("d", "的", "", ""), ("da", "大", "", "")]
+        for k in s.get("recKeys", []):
+            rows += [(k, "<%s>" % k, "", ""), (k, "«%s»" % k[:1], "c", "")]
+        rows_for[tid] = rows
+        letter = "key %d 0" % ord(s["alphabet"][0])
+        end = ["key %d 0" % XK["space"], "read_commit"]
+        for w in s["recWords"]:
+            typed = _keys_of(w)
+            n = len(w)
+            variants = [[], ["key %d 0" % XK["BackSpace"]] * (n + 1), ["select 0", letter], ["select 1", letter, "key %d 0" % XK["BackSpace"], "key %d 0" % XK["BackSpace"]],
+                        ["option ascii_mode 1", letter, "option ascii_mode 0", letter], ["commit", "read_commit"], ["key %d 0" % XK["Return"], "read_commit"],
+                        ["key %d 0" % XK["Home"], letter], ["key %d 0" % XK["Escape"], letter]]
+            for k in range(n + 1):
+                variants.append(["caret %d" % k, letter])
+                variants.append(["caret %d" % k, "key %d 0" % XK["BackSpace"]])
+            for v in variants:
+                if rng is not None and rng.randrange(3):
+                    continue
+                hs.append((sid, typed + v + end, tid))
+                if rng is None or rng.randrange(2):
+                    hs.append((sid, ["input %s" % hx(w)] + v + end, tid))
+        for w in ("Uab\n", "ab\nUab", "ab\r\nUa", "ab\rUa", "\nUa", "Ua\n\n", "`a\n`b", "a\f/a", "/a\n", "=a\nb"):
+            hs.append((sid, ["input %s" % hx(w.encode()), "caret 2", letter] + end, tid))
